@@ -16,9 +16,9 @@ namespace { const int NH = 5; }
 void pbt_generate(Rng& r, int size, Case& c) {
   c.params["kind"] = (long)r.below(5);
   int n = 2 + (int)r.below((uint64_t)size + 1);
-  static const char* names[] = {"make", "copy", "assign", "swap", "modify", "destroy", "raw", "clear"};
-  static const int w[] = {8, 22, 22, 12, 18, 14, 4, 8};
-  for (int k = 0; k < n; ++k) c.add(names[r.weighted(w, 8)], (long)r.below(NH), (long)r.below(NH), (long)r.below(100), (long)r.below(2));
+  static const char* names[] = {"make", "copy", "assign", "swap", "modify", "destroy", "raw", "clear", "ownpart"};
+  static const int w[] = {8, 22, 22, 12, 18, 14, 4, 8, 5};
+  for (int k = 0; k < n; ++k) c.add(names[r.weighted(w, 9)], (long)r.below(NH), (long)r.below(NH), (long)r.below(100), (long)r.below(2));
 }
 
 bool pbt_nontrivial(const Ctx& ctx) { return ctx.has("swap_or_assign_between_payloads_then_destroy"); }
@@ -67,6 +67,14 @@ void pbt_run(const Case& cs, Ctx& ctx) {
     else if (nm == "modify") { if (!h[a]) { ctx.count("skipped"); continue; } bool shared = false; for (int i = 0; i < NH; ++i) if (i != a && h[i] && pay[i] == pay[a]) shared = true; if (shared) ctx.label("modify_while_shared"); k->modify(h[a], a, (int)op.a[2], m[a]); pay[a] = nextPay++; }
     else if (nm == "destroy") { if (!h[a]) { ctx.count("skipped"); continue; } if (recentMix >= 0) ctx.label("swap_or_assign_between_payloads_then_destroy"); k->destroy(h[a]); h[a] = nullptr; pay[a] = -1; }
     else if (nm == "clear") { if (!h[a]) { ctx.count("skipped"); continue; } k->clear(h[a], m[a]); pay[a] = nextPay++; ctx.label("clear"); }
+    else if (nm == "ownpart") {
+      // the handle is assigned a value that lives inside its own payload (an element's child or name): the source must be read
+      // before the old payload is released
+      if (!h[a]) { ctx.count("skipped"); continue; }
+      bool shared = false; for (int i = 0; i < NH; ++i) if (i != a && h[i] && pay[i] == pay[a]) shared = true;
+      if (!k->assignFromOwnPayload(h[a], (int)op.a[3], m[a])) { ctx.count("skipped"); continue; }
+      pay[a] = nextPay++; ctx.label(shared ? "assign_from_own_payload_shared" : "assign_from_own_payload_sole_owner");
+    }
     else if (nm == "raw") {
       // RefCount::Ptr: assignment of a raw pointer / null
       if (kind != 3 || !h[a]) { ctx.count("skipped"); continue; }
